@@ -325,3 +325,85 @@ class Rat(AbstractValue):
 
     def __deepcopy__(self, memo):
         return self
+
+
+# ---------------------------------------------------------------------------
+# exact division by a single polynomial (lex order) and non-zero reasoning
+# ---------------------------------------------------------------------------
+
+def _lex_key(m, order):
+    d = dict(m)
+    return tuple(d.get(v, 0) for v in order)
+
+
+def divide_exact(p: Poly, f: Poly):
+    """quotient q with p == q*f, or None.  Integer coefficients only (a
+    non-integral coefficient means 'does not divide over Z')."""
+    if f.is_zero():
+        return None
+    order = sorted(p.vars() | f.vars(), key=str)
+    lf = max(f.t, key=lambda m: _lex_key(m, order))
+    cf = f.t[lf]
+    dlf = dict(lf)
+    q = {}
+    r = dict(p.t)
+    guard = 0
+    while r:
+        guard += 1
+        if guard > 20000:
+            return None
+        lr = max(r, key=lambda m: _lex_key(m, order))
+        cr = r[lr]
+        dlr = dict(lr)
+        if any(dlr.get(v, 0) < e for v, e in dlf.items()) or cr % cf:
+            return None
+        for v, e in dlf.items():
+            ne = dlr[v] - e
+            if ne:
+                dlr[v] = ne
+            else:
+                del dlr[v]
+        mono = tuple(sorted(dlr.items(), key=lambda x: str(x[0])))
+        c = cr // cf
+        q[mono] = q.get(mono, 0) + c
+        for mf, cff in f.t.items():
+            mm = _mmul(mono, mf)
+            nv = r.get(mm, 0) - c * cff
+            if nv:
+                r[mm] = nv
+            else:
+                r.pop(mm, None)
+    return Poly(q, p.mod)
+
+
+def _only_2_3(c):
+    c = abs(c)
+    if c == 0:
+        return False
+    for q in (2, 3):
+        while c % q == 0:
+            c //= q
+    return c == 1
+
+
+def known_nonzero(p: Poly, nonzero_factors, allow_const=_only_2_3):
+    """is p a product of (powers of) the given non-zero polynomials and a
+    constant that is a unit in every characteristic > 3?"""
+    if p.is_zero():
+        return False
+    factors = [f for f in nonzero_factors if not f.is_const()]
+    changed = True
+    while changed and not p.is_const():
+        changed = False
+        for f in factors:
+            q = divide_exact(p, f)
+            if q is not None:
+                p = q
+                changed = True
+                break
+            q = divide_exact(p, -f)
+            if q is not None:
+                p = -q
+                changed = True
+                break
+    return p.is_const() and allow_const(p.const_value())
